@@ -31,16 +31,23 @@ const (
 	opInsert = 0
 	opDelete = 1
 	opSearch = 2
+	// concrete keys (fan-out bases): spec packs len<<24 | b0<<16 | b1<<8 | b2 for byte strings, the value for numbers
+	opInsertC = 3
+	opDeleteC = 4
 )
 
 // hk describes one tree kind / key type to the generic history driver.
 type hk[K any] struct {
 	newTree func() Tree[K, uint64]
 	newKey  func(spec int) K
+	concKey func(spec int) K
 	clone   func(K) K
 	eq      func(a, b K) bool // oracle equality (no fork)
 	less    func(a, b K) bool // oracle strict order (no fork)
 	trace   func(tag string, k K)
+	scratch bool // the key codec keeps per-call scratch state (collation): excluded from the reader premise
+	lv      *leafView
+	state   func(t Tree[K, uint64]) vpTreeState
 	// byte-string kinds only
 	bytesOf func(K) []byte
 	isAlpha bool
@@ -167,7 +174,13 @@ func runHist[K any](h *hk[K]) {
 	for i := 0; i < nOps; i++ {
 		op, spec := vpParam(pi), vpParam(pi+1)
 		pi += 2
-		k := h.newKey(spec)
+		var k K
+		if op == opInsertC || op == opDeleteC {
+			k = h.concKey(spec)
+			op -= 3
+		} else {
+			k = h.newKey(spec)
+		}
 		switch op {
 		case opInsert:
 			v := vpU64()
@@ -197,6 +210,11 @@ func runHist[K any](h *hk[K]) {
 		}
 		if mask&ckSize != 0 {
 			vpAssert(uint64(t.Size()) == ref.count(), "C06 size after op")
+		}
+		if mask&ckShape != 0 {
+			st := h.state(t)
+			vpAssert(wellFormed(st.lv, st.root, st.size), "C11 index well-formed after op")
+			vpAssert(uint64(st.size) == ref.count(), "C11 reachable keys equal the reference cardinality")
 		}
 	}
 	if mask&ckMap != 0 {
@@ -228,6 +246,283 @@ func runHist[K any](h *hk[K]) {
 		bw := collect(t.Backward())
 		vpTrace("bwd.n", uint64(len(bw.ks)))
 		vpAssert(sortedContent(ref, bw, true, nil), "C02 Backward() is the reverse sorted content")
+	}
+	if mask&ckExt != 0 {
+		checkExtremes(h, t, ref)
+	}
+	if mask&ckRange != 0 {
+		emptyEnd := vpParam(pi+1) == -1
+		a := h.newKey(vpParam(pi))
+		var b K
+		if emptyEnd {
+			b = h.concKey(0)
+		} else {
+			b = h.newKey(vpParam(pi + 1))
+		}
+		pi += 2
+		checkRange(h, t, ref, a, b, emptyEnd)
+	}
+	if mask&ckPrefix != 0 {
+		p := h.newKey(vpParam(pi))
+		pi++
+		vpApi()
+		y := collect(t.Prefix(h.clone(p)))
+		vpTrace("prefix.n", uint64(len(y.ks)))
+		pb := h.bytesOf(p)
+		in := func(k K) bool { return vpHasPrefix(h.bytesOf(k), pb) }
+		vpAssert(sortedContent(ref, y, false, in), "C04 Prefix(p) is exactly the keys starting with p, ascending")
+	}
+	if mask&ckReiter != 0 {
+		method := vpParam(pi)
+		sa, sb := vpParam(pi+1), vpParam(pi+2)
+		pi += 3
+		checkReiter(h, t, ref, method, sa, sb)
+	}
+	if mask&ckPure != 0 {
+		which := vpParam(pi)
+		sa, sb := vpParam(pi+1), vpParam(pi+2)
+		pi += 3
+		checkPure(h, t, ref, which, sa, sb)
+	}
+}
+
+// checkPure: one read-only or no-op call must leave every cell reachable from the tree untouched (C15);
+// for the pure queries it must also not store to any memory that existed before the call (C16 reader premise).
+func checkPure[K any](h *hk[K], t Tree[K, uint64], ref *refMap[K], which, sa, sb int) {
+	var k K
+	var nv uint64
+	switch which {
+	case 6: // Delete of an absent key
+		k = h.newKey(sa)
+		_, present := ref.get(k)
+		vpAssume(!present)
+	case 7: // Insert of a present key
+		k = h.newKey(sa)
+		_, present := ref.get(k)
+		vpAssume(present)
+		nv = vpU64()
+	}
+	var before *yielded[K]
+	if which == 7 {
+		before = collect(t.All())
+	}
+	snap := vpSnapshot(h.state(t))
+	pool0 := vpPoolOps()
+	vpReaderWindow(1)
+	vpApi()
+	switch which {
+	case 0:
+		t.Search(h.clone(h.newKey(sa)))
+	case 1:
+		t.Minimum()
+		t.Maximum()
+		t.Size()
+	case 2:
+		collect(t.All())
+		collect(t.Backward())
+	case 3:
+		collect(t.Prefix(h.clone(h.newKey(sa))))
+	case 4:
+		a, b := h.newKey(sa), h.newKey(sb)
+		if h.badBound != nil {
+			vpAssume(!h.badBound(a, b))
+		}
+		collect(t.Range(h.clone(a), h.clone(b)))
+	case 5:
+		collect(t.TopK(uint(vpU64())))
+		collect(t.BottomK(uint(vpU64())))
+	case 6:
+		got := t.Delete(h.clone(k))
+		vpAssert(!got, "C15 Delete of an absent key reports false")
+	case 7:
+		t.Insert(h.clone(k), nv)
+	}
+	vpReaderWindow(0)
+	if which == 7 {
+		vpAssert(vpUnchangedButValues(snap, h.state(t)), "C15 Insert of a present key changes nothing but that key's value")
+		after := collect(t.All())
+		if len(after.ks) != len(before.ks) {
+			vpFail("C15 Insert of a present key changed the number of pairs")
+		}
+		ok := true
+		for i := range before.ks {
+			same := h.eq(before.ks[i], after.ks[i])
+			isK := h.eq(before.ks[i], k)
+			ok = vpAnd(ok, vpAnd(same, vpIteBool(isK, after.vs[i] == nv, after.vs[i] == before.vs[i])))
+		}
+		vpAssert(ok, "C15 Insert of a present key changes exactly that key's value")
+	} else {
+		vpAssert(vpUnchanged(snap, h.state(t)), "C15 read-only / no-op call left the tree untouched")
+	}
+	vpAssert(vpPoolOps() == pool0, "C15 read-only / no-op call caused no node-pool traffic")
+	if which <= 5 && !h.scratch {
+		vpAssert(vpReaderWrites() == 0, "C16 a query stored to memory that existed before the call")
+	}
+}
+
+func le[K any](h *hk[K], a, b K) bool { return !h.less(b, a) }
+
+func checkExtremes[K any](h *hk[K], t Tree[K, uint64], ref *refMap[K]) {
+	cnt := ref.count()
+	vpApi()
+	mk, mv, mok := t.Minimum()
+	vpTrace("min.ok", vpB2U(mok))
+	okMin := mok == (cnt != 0)
+	if mok {
+		okMin = vpAnd(okMin, ref.member(mk, mv))
+		for i := range ref.ents {
+			e := &ref.ents[i]
+			okMin = vpAnd(okMin, !vpAnd(e.live, h.less(e.k, mk)))
+		}
+	}
+	vpAssert(okMin, "C05 Minimum() is the smallest stored pair / reports none exactly when empty")
+	vpApi()
+	xk, xv, xok := t.Maximum()
+	okMax := xok == (cnt != 0)
+	if xok {
+		okMax = vpAnd(okMax, ref.member(xk, xv))
+		for i := range ref.ents {
+			e := &ref.ents[i]
+			okMax = vpAnd(okMax, !vpAnd(e.live, h.less(xk, e.k)))
+		}
+	}
+	vpAssert(okMax, "C05 Maximum() is the largest stored pair / reports none exactly when empty")
+	// BottomK / TopK with a fully symbolic n
+	n := uint(vpU64())
+	vpApi()
+	bk := collect(t.BottomK(n))
+	vpTrace("bottomk.n", uint64(len(bk.ks)))
+	vpAssert(firstK(h, ref, bk, false, uint64(n)), "C05 BottomK(n) is the first min(n,size) pairs ascending")
+	m := uint(vpU64())
+	vpApi()
+	tk := collect(t.TopK(m))
+	vpTrace("topk.n", uint64(len(tk.ks)))
+	vpAssert(firstK(h, ref, tk, true, uint64(m)), "C05 TopK(n) is the first min(n,size) pairs descending")
+}
+
+// firstK: y is the first min(n,size) elements of the ascending (descending) content.
+func firstK[K any](h *hk[K], r *refMap[K], y *yielded[K], desc bool, n uint64) bool {
+	ok := true
+	for i := 0; i+1 < len(y.ks); i++ {
+		if desc {
+			ok = vpAnd(ok, h.less(y.ks[i+1], y.ks[i]))
+		} else {
+			ok = vpAnd(ok, h.less(y.ks[i], y.ks[i+1]))
+		}
+	}
+	for i := range y.ks {
+		ok = vpAnd(ok, r.member(y.ks[i], y.vs[i]))
+	}
+	cnt := r.count()
+	want := vpIte64(n < cnt, n, cnt)
+	ok = vpAnd(ok, want == uint64(len(y.ks)))
+	if len(y.ks) > 0 {
+		last := y.ks[len(y.ks)-1]
+		// every live entry is either yielded (not beyond last) or lies beyond the last yielded one
+		for i := range r.ents {
+			e := &r.ents[i]
+			isY := false
+			for j := range y.ks {
+				isY = vpOr(isY, h.eq(e.k, y.ks[j]))
+			}
+			var beyond bool
+			if desc {
+				beyond = h.less(e.k, last)
+			} else {
+				beyond = h.less(last, e.k)
+			}
+			ok = vpAnd(ok, vpOr(!e.live, vpOr(isY, beyond)))
+		}
+	}
+	return ok
+}
+
+func checkRange[K any](h *hk[K], t Tree[K, uint64], ref *refMap[K], a, b K, emptyEnd bool) {
+	if h.badBound != nil {
+		vpAssume(!h.badBound(a, b))
+	}
+	var in func(K) bool
+	if emptyEnd {
+		// byte-string trees: an empty end bound means "up to the largest stored key";
+		// carved out: start above the maximum of a non-empty tree
+		someGE := false
+		for i := range ref.ents {
+			e := &ref.ents[i]
+			someGE = vpOr(someGE, vpAnd(e.live, le(h, a, e.k)))
+		}
+		vpAssume(vpOr(ref.count() == 0, someGE))
+		in = func(k K) bool { return le(h, a, k) }
+	} else {
+		in = func(k K) bool {
+			return vpOr(vpAnd(le(h, a, k), le(h, k, b)), vpAnd(le(h, b, k), le(h, k, a)))
+		}
+	}
+	vpApi()
+	y := collect(t.Range(h.clone(a), h.clone(b)))
+	vpTrace("range.n", uint64(len(y.ks)))
+	for i := range y.ks {
+		h.trace("range.k", y.ks[i])
+	}
+	vpAssert(sortedContent(ref, y, false, in), "C03 Range(a,b) is exactly the stored keys between the bounds, ascending")
+}
+
+// seqOf returns the sequence under test for C14.
+func seqOf[K any](h *hk[K], t Tree[K, uint64], method, sa, sb int) func(yield func(K, uint64) bool) {
+	switch method {
+	case 0:
+		return t.All()
+	case 1:
+		return t.Backward()
+	case 2:
+		return t.Prefix(h.clone(h.newKey(sa)))
+	case 3:
+		a, b := h.newKey(sa), h.newKey(sb)
+		if h.badBound != nil {
+			vpAssume(!h.badBound(a, b))
+		}
+		return t.Range(h.clone(a), h.clone(b))
+	case 4:
+		return t.TopK(uint(vpU64()))
+	case 5:
+		return t.BottomK(uint(vpU64()))
+	}
+	vpFail("unknown sequence method")
+	return nil
+}
+
+func checkReiter[K any](h *hk[K], t Tree[K, uint64], ref *refMap[K], method, sa, sb int) {
+	vpApi()
+	seq := seqOf(h, t, method, sa, sb)
+	full := collect(seq) // first complete pass
+	vpTrace("reiter.n", uint64(len(full.ks)))
+	// a pass abandoned after a symbolic number of elements
+	stopAt := uint64(vpU8())
+	var calls uint64
+	stopped := false
+	seq(func(k K, v uint64) bool {
+		if stopped {
+			vpFail("C14 yield called again after it returned false")
+		}
+		calls++
+		if calls == stopAt {
+			stopped = true
+			return false
+		}
+		return true
+	})
+	// ranging over the same sequence value again yields the full result again
+	for pass := 0; pass < 2; pass++ {
+		again := collect(seq)
+		ok := len(again.ks) == len(full.ks)
+		if ok {
+			same := true
+			for i := range full.ks {
+				same = vpAnd(same, vpAnd(h.eq(again.ks[i], full.ks[i]), again.vs[i] == full.vs[i]))
+			}
+			vpAssert(same, "C14 re-iteration yields the same elements as the first complete pass")
+		} else {
+			vpFail("C14 re-iteration yields a different number of elements than the first complete pass")
+		}
 	}
 }
 
@@ -262,6 +557,15 @@ func alphaKeyBytes(spec int) []byte {
 	return b
 }
 
+func alphaConcKey(spec int) []byte {
+	n := spec >> 24
+	b := make([]byte, 0, n)
+	for i := 0; i < n; i++ {
+		b = append(b, byte(spec>>(16-8*i)))
+	}
+	return b
+}
+
 func traceBytes(tag string, b []byte) {
 	var x uint64
 	for i := 0; i < len(b) && i < 8; i++ {
@@ -271,9 +575,16 @@ func traceBytes(tag string, b []byte) {
 }
 
 func hkAlphaBytes() *hk[[]byte] {
+	lv := lvAlpha()
 	return &hk[[]byte]{
+		lv: lv,
+		state: func(t Tree[[]byte, uint64]) vpTreeState {
+			tt := t.(*alphaSortedTree[[]byte, uint64])
+			return vpTreeState{tt.root, tt.size, lv}
+		},
 		newTree: func() Tree[[]byte, uint64] { return NewAlphaSortedTree[[]byte, uint64]() },
 		newKey:  alphaKeyBytes,
+		concKey: alphaConcKey,
 		clone:   func(k []byte) []byte { return append([]byte(nil), k...) },
 		eq:      vpEqBytes,
 		less:    vpLessBytes,
@@ -284,9 +595,16 @@ func hkAlphaBytes() *hk[[]byte] {
 }
 
 func hkAlphaString() *hk[string] {
+	lv := lvAlpha()
 	return &hk[string]{
+		lv: lv,
+		state: func(t Tree[string, uint64]) vpTreeState {
+			tt := t.(*alphaSortedTree[string, uint64])
+			return vpTreeState{tt.root, tt.size, lv}
+		},
 		newTree: func() Tree[string, uint64] { return NewAlphaSortedTree[string, uint64]() },
 		newKey:  func(spec int) string { return string(alphaKeyBytes(spec)) },
+		concKey: func(spec int) string { return string(alphaConcKey(spec)) },
 		clone:   func(k string) string { return k },
 		eq:      func(a, b string) bool { return a == b },
 		less:    func(a, b string) bool { return a < b },
@@ -297,9 +615,16 @@ func hkAlphaString() *hk[string] {
 }
 
 func hkUnsigned[K uints](gen func() K) *hk[K] {
+	lv := lvUnsigned()
 	return &hk[K]{
+		lv: lv,
+		state: func(t Tree[K, uint64]) vpTreeState {
+			tt := t.(*unsignedSortedTree[K, uint64])
+			return vpTreeState{tt.root, tt.size, lv}
+		},
 		newTree: func() Tree[K, uint64] { return NewUnsignedBinaryTree[K, uint64]() },
 		newKey:  func(int) K { return gen() },
+		concKey: func(spec int) K { return K(spec) },
 		clone:   func(k K) K { return k },
 		eq:      func(a, b K) bool { return a == b },
 		less:    func(a, b K) bool { return a < b },
@@ -308,9 +633,16 @@ func hkUnsigned[K uints](gen func() K) *hk[K] {
 }
 
 func hkSigned[K ints](gen func() K) *hk[K] {
+	lv := lvSigned()
 	return &hk[K]{
+		lv: lv,
+		state: func(t Tree[K, uint64]) vpTreeState {
+			tt := t.(*signedSortedTree[K, uint64])
+			return vpTreeState{tt.root, tt.size, lv}
+		},
 		newTree: func() Tree[K, uint64] { return NewSignedBinaryTree[K, uint64]() },
 		newKey:  func(int) K { return gen() },
+		concKey: func(spec int) K { return K(spec) },
 		clone:   func(k K) K { return k },
 		eq:      func(a, b K) bool { return a == b },
 		less:    func(a, b K) bool { return a < b },
@@ -340,12 +672,23 @@ func f64Less(a, b float64) bool {
 }
 
 func hkF32() *hk[float32] {
+	lv := lvFloat()
 	return &hk[float32]{
+		lv: lv,
+		state: func(t Tree[float32, uint64]) vpTreeState {
+			tt := t.(*floatSortedTree[float32, uint64])
+			return vpTreeState{tt.root, tt.size, lv}
+		},
 		newTree: func() Tree[float32, uint64] { return NewFloatBinaryTree[float32, uint64]() },
 		newKey:  func(int) float32 { return vpF32() },
-		clone:   func(k float32) float32 { return k },
-		eq:      f32Eq,
-		less:    f32Less,
+		concKey: func(spec int) float32 { return math.Float32frombits(uint32(spec)) },
+		// carved out of C03: NaN bounds and the pair (-0,+0)
+		badBound: func(a, b float32) bool {
+			return vpOr(vpOr(a != a, b != b), vpAnd(a == b, math.Float32bits(a) != math.Float32bits(b)))
+		},
+		clone: func(k float32) float32 { return k },
+		eq:    f32Eq,
+		less:  f32Less,
 		trace: func(tag string, k float32) {
 			b := math.Float32bits(k)
 			vpTrace(tag, vpIte64(k != k, 0x7fc00000, uint64(b)))
@@ -354,12 +697,22 @@ func hkF32() *hk[float32] {
 }
 
 func hkF64() *hk[float64] {
+	lv := lvFloat()
 	return &hk[float64]{
+		lv: lv,
+		state: func(t Tree[float64, uint64]) vpTreeState {
+			tt := t.(*floatSortedTree[float64, uint64])
+			return vpTreeState{tt.root, tt.size, lv}
+		},
 		newTree: func() Tree[float64, uint64] { return NewFloatBinaryTree[float64, uint64]() },
 		newKey:  func(int) float64 { return vpF64() },
-		clone:   func(k float64) float64 { return k },
-		eq:      f64Eq,
-		less:    f64Less,
+		concKey: func(spec int) float64 { return float64(math.Float32frombits(uint32(spec))) },
+		badBound: func(a, b float64) bool {
+			return vpOr(vpOr(a != a, b != b), vpAnd(a == b, math.Float64bits(a) != math.Float64bits(b)))
+		},
+		clone: func(k float64) float64 { return k },
+		eq:    f64Eq,
+		less:  f64Less,
 		trace: func(tag string, k float64) {
 			b := math.Float64bits(k)
 			vpTrace(tag, vpIte64(k != k, 0x7ff8000000000000, b))
